@@ -158,6 +158,104 @@ theorem asis_adopt_shares (h : Heap) (ds lv : Nat) (spec : List Int) :
   rw [List.getElem?_append_right (by omega)]
   simp
 
+/-! ## shallow adoption: `Grid(ds, …)` / `from_dataset(ds, source_grid_spec=…)` once repaired
+
+  The grid keeps its own Dataset, Variable and attribute-dictionary objects around the caller's
+  ARRAYS (zero-copy).  Grid and input are therefore not separated — but whatever the library does to
+  the grid except writing into an array in place stays above the caller's objects. -/
+
+theorem gridOp_clean (op : GridOp) (hop : op.noArrayWrite) : ∀ a ∈ op.acts, CleanAct a := by
+  have e1 : ∀ v : Nat, ¬ kVar v = 1 := fun v => by simp only [kVar]; omega
+  intro a ha
+  cases op with
+  | cache c =>
+    cases c with
+    | fill k d => simp only [GridOp.acts, CacheOp.acts, List.mem_singleton] at ha; subst ha; simp [CleanAct, cleanPath]
+    | drop k => simp only [GridOp.acts, CacheOp.acts, List.mem_singleton] at ha; subst ha; simp [CleanAct, cleanPath]
+    | switch k d =>
+      simp only [GridOp.acts, CacheOp.acts, List.mem_singleton] at ha; subst ha
+      simp only [GridOp.noArrayWrite] at hop
+      simpa [CleanAct, cleanPath] using hop
+  | data m =>
+    cases m with
+    | writeVar v d => exact absurd hop (by simp [GridOp.noArrayWrite])
+    | setVar v d at' =>
+      simp only [GridOp.acts, Mut.actsGrid, Mut.actsDs, List.map_cons, List.map_nil, prefixAct,
+        List.mem_cons, List.not_mem_nil, or_false] at ha
+      rcases ha with rfl | rfl | rfl <;> simp [CleanAct, cleanPath, kDs, kData, e1]
+    | rebind v d =>
+      simp only [GridOp.acts, Mut.actsGrid, Mut.actsDs, List.map_cons, List.map_nil, prefixAct,
+        List.mem_singleton] at ha
+      subst ha; simp [CleanAct, cleanPath, kDs, kData, e1]
+    | varAttr v d =>
+      simp only [GridOp.acts, Mut.actsGrid, Mut.actsDs, List.map_cons, List.map_nil, prefixAct,
+        List.mem_singleton] at ha
+      subst ha; simp [CleanAct, cleanPath, kDs, kData, kAttrs, e1]
+    | dsAttr d =>
+      simp only [GridOp.acts, Mut.actsGrid, Mut.actsDs, List.map_cons, List.map_nil, prefixAct,
+        List.mem_singleton] at ha
+      subst ha; simp [CleanAct, cleanPath, kDs, kData, kAttrs]
+    | delVar v =>
+      simp only [GridOp.acts, Mut.actsGrid, Mut.actsDs, List.map_cons, List.map_nil, prefixAct,
+        List.mem_singleton] at ha
+      subst ha; simp [CleanAct, cleanPath, kDs, kData]
+    | writeRoot d =>
+      simp only [GridOp.acts, Mut.actsGrid, Mut.actsDs, List.map_cons, List.map_nil, prefixAct,
+        List.mem_singleton] at ha
+      subst ha; simp [CleanAct, cleanPath, kDs, kData]
+
+/-- **adopt_shallow_independent**: after the (repaired) `Grid(ds)` — also when a longitude had to be
+    re-wrapped — ANY history of grid operations other than in-place array writes (derivations,
+    setters, `.data =` rebinding, attribute edits, deletions, cache fills / switches) leaves every
+    cell that existed before the call, hence everything the caller's dataset reaches, as it was. -/
+theorem adopt_shallow_independent (h : Heap) (ds lv : Nat) (wrapped : Option (List Int)) (spec : List Int)
+    (wf : WF h) (hds : ds < h.length) (ops : List GridOp) (hops : ∀ op ∈ ops, op.noArrayWrite) :
+    Frame h (runActs (adoptShallow h ds lv wrapped spec).1 (adoptShallow h ds lv wrapped spec).2
+      (ops.flatMap GridOp.acts)) ds := by
+  have e1 : kVar lv ≠ kData := by simp only [kVar, kData]; omega
+  obtain ⟨ex, hg, _⟩ := allocGrid_spec h.length h (dsVarsShallow h ds) (dsAttrsData h ds) spec (Nat.le_refl _)
+  have ls := ext_lowSame ex
+  have hl := ext_length ex
+  have Q0 := allocGrid_dataOnlyLow h (dsVarsShallow h ds) (dsAttrsData h ds) spec
+  generalize hr : allocGrid h (dsVarsShallow h ds) (dsAttrsData h ds) spec = r at ls hl Q0 hg
+  let pre : List Act := match wrapped with
+    | some d => [.fresh [kDs, kVar lv] kData d []]
+    | none => []
+  have hpre : ∀ a ∈ pre, CleanAct a := by
+    intro a ha
+    cases wrapped with
+    | none => simp [pre] at ha
+    | some d =>
+      simp only [pre, List.mem_singleton] at ha
+      subst ha
+      have e2 : ¬ kVar lv = 1 := e1
+      simp [CleanAct, cleanPath, kDs, kData, e2]
+  have hshape : adoptShallow h ds lv wrapped spec = (runActs r.1 r.2 pre, r.2) := by
+    unfold adoptShallow
+    rw [hr]
+    cases wrapped <;> simp [pre, runActs]
+  rw [hshape]
+  have hrun : runActs (runActs r.1 r.2 pre) r.2 (ops.flatMap GridOp.acts) =
+      runActs r.1 r.2 (pre ++ ops.flatMap GridOp.acts) := by
+    simp [runActs, List.foldl_append]
+  simp only [hrun]
+  have hall : ∀ a ∈ pre ++ ops.flatMap GridOp.acts, CleanAct a := by
+    intro a ha
+    rcases List.mem_append.mp ha with ha | ha
+    · exact hpre a ha
+    · obtain ⟨op, hop, hm⟩ := List.mem_flatMap.mp ha
+      exact gridOp_clean op (hops op hop) a hm
+  obtain ⟨ht, _⟩ := runActs_clean hg (pre ++ ops.flatMap GridOp.acts) Q0 hall
+  intro x hx
+  have hxl : x < h.length := reach_lt wf hds hx
+  rw [runActs_lowSame _ hl ht x hxl]
+  exact ls x hxl
+
+/-- construction itself (no later operations): `Grid(ds)` leaves the caller's dataset as it was -/
+theorem adopt_shallow_readonly (h : Heap) (ds lv : Nat) (wrapped : Option (List Int)) (spec : List Int)
+    (wf : WF h) (hds : ds < h.length) : Frame h (adoptShallow h ds lv wrapped spec).1 ds := by
+  simpa [runActs] using adopt_shallow_independent h ds lv wrapped spec wf hds [] (by simp)
+
 /-! ## separated objects are independent under every history -/
 
 /-- **copy_independent**: if two objects share no cell, then ANY history of mutator actions on one
@@ -467,7 +565,7 @@ example : (field demoTrees.1 demoTrees.2 kBall).isSome ∧
     original's tree and replacing its face centres leaves the copy untouched -/
 example :
     let hc := copyGrid demoTrees.1 demoTrees.2
-    let ops : List GridOp := [.cache (.switch kBall [9]), .mut (.setVar 7 [5, 5] [3]), .cache (.fill kGdf [4])]
+    let ops : List GridOp := [.cache (.switch kBall [9]), .data (.setVar 7 [5, 5] [3]), .cache (.fill kGdf [4])]
     let h2 := runActs hc.1 demoTrees.2 (ops.flatMap GridOp.acts)
     judge hc.1 demoTrees.2 hc.2 = .sep ∧ field hc.1 hc.2 kBall = none ∧
     frameJ hc.1 h2 hc.2 = .ok ∧ frameJ hc.1 h2 demoTrees.2 ≠ .ok := by
@@ -512,5 +610,17 @@ theorem asis_adopt_writes_input :
     ¬ Frame ha.1 (runActs ha.1 ha.2 ((Mut.setVar 5 [1, 1] [3]).actsGrid)) demoDs.2 := by
   refine ⟨frameJ_changed (x := 2) (p := [kVar 0]) (by decide +kernel),
           frameJ_changed (x := 7) (p := []) (by decide +kernel)⟩
+
+/-- repaired adoption of `demoDs` with a longitude to re-wrap: the caller's dataset is untouched by
+    construction and by a history of library operations, the grid really changed, and the one
+    excluded operation (an in-place write through the shared array) does reach the caller — zero-copy -/
+example :
+    let ha := adoptShallow demoDs.1 demoDs.2 0 (some [-160, 10]) [1]
+    let ops : List GridOp := [.data (.setVar 5 [1, 1] [3]), .data (.rebind 2 [4]), .data (.varAttr 0 [6]),
+      .data (.dsAttr [5]), .cache (.fill kBall [1]), .cache (.switch kBall [2]), .data (.delVar 2)]
+    let h2 := runActs ha.1 ha.2 (ops.flatMap GridOp.acts)
+    frameJ demoDs.1 ha.1 demoDs.2 = .ok ∧ frameJ demoDs.1 h2 demoDs.2 = .ok ∧ frameJ ha.1 h2 ha.2 ≠ .ok ∧
+    frameJ ha.1 (runActs ha.1 ha.2 (Mut.writeVar 2 [7, 7, 7]).actsGrid) demoDs.2 ≠ .ok := by
+  decide +kernel
 
 end UxVerif.C19
